@@ -170,7 +170,7 @@ pub fn stepped(sc: &VmSc, with_faults: bool, keep_states: bool, obs: &mut Obs, o
             return None;
         }
     }
-    let max_steps = init.limit.min(STEP_CAP);
+    let max_steps = init.limit.min(STEP_CAP + init.wrap);
     let mut t = 0usize;
     while t < max_steps {
         if with_faults {
@@ -390,12 +390,21 @@ pub fn stepped(sc: &VmSc, with_faults: bool, keep_states: bool, obs: &mut Obs, o
         // cost bound of the harness (not of the code under test): an unbounded exec stack may
         // legitimately grow by a whole block per step; stop stepping (the run then counts as
         // "not ended", so the real loop is not consulted) before the recorded states get large
-        if model.exec.iter().map(Prog::nodes).sum::<usize>() > EXEC_NODE_CAP {
+        if model.exec.iter().map(Prog::nodes).sum::<usize>() > EXEC_NODE_CAP + 2 * init.wrap {
             obs.hit("probe.stepping-stopped-at-exec-node-cap");
             break;
         }
     }
     obs.count("steps", res.steps as u64);
+    if init.wrap > 0 && !with_faults {
+        obs.hit("probe.deep-nesting-run");
+        if res.steps > init.wrap {
+            obs.hit("probe.deep-nesting-fully-unwrapped");
+        }
+        if init.wrap > 200 {
+            obs.hit("probe.deep-nesting>200");
+        }
+    }
     Some(res)
 }
 
